@@ -204,6 +204,26 @@ def run(pid, tier, seed):
         q = [e for e in sc if e["ev"] == "quiesce"]
         rep.violation({"scenario": byname.get(sc[0].get("scenario", "").split("/")[0]), "sched": q[0]["sched"] if q else [],
                        "trace": sc, "matched": fl["matched"], "spec": "specs/udp/TraceUDP.tla"}, describe(fl))
+    # spec growth beyond C11/C12: write batching of udp.BatchConn over real sockets (specs/batch);
+    # a rejection there is reported as a note, never as a violation of C11/C12
+    if pid == "C12":
+        vlib.inject(repo2, {"batch": "udp"})
+        tp3 = os.path.join(d, "batch.trace")
+        rc, out, _ = vlib.go_test(repo2, "./udp/", "^TestVerifBatchConn$", synctest=False, timeout=600,
+                                  env={"VERIF_TRACE": tp3, "VERIF_SEED": seed, "VERIF_RUNS": 8 if not big else 40})
+        if rc == 0:
+            rb = vlib.run_tlc("batch", "MC_Batch", "MC_Batch.cfg", workers=2)
+            if rb.ok:
+                rep.add_tlc(rb)
+            bl = vlib.read_ndjson(tp3)
+            b_ok, b_fails, _ = vlib.validate_scenarios("batch", "TraceBatch", "TraceBatch.cfg", bl, batch=40000)
+            rep.extra["aux_batchconn_runs_validated"] = b_ok
+            rep.extra["aux_batchconn_drift"] = [f["first_unmatched"] for f in b_fails]
+            for f in b_fails:
+                rep.notes.append("NOTE model-drift (BatchConn, not part of C12): " + json.dumps(f["first_unmatched"]))
+                log("NOTE model-drift (BatchConn, not part of C12): " + json.dumps(f["first_unmatched"]))
+        else:
+            rep.notes.append("auxiliary BatchConn harness did not run: " + out[-300:])
     if not fails:
         cand = [s[1] for s in allsc if any(e["ev"] == "ret" and e["res"] == "data" for e in s[1])]
         s0 = [dict(e) for e in cand[len(cand) // 2]]
